@@ -68,6 +68,10 @@ class MemFS(object):
             raise OSError(errno.ENOENT, _os.strerror(errno.ENOENT), src)
         if self._faulty():
             raise OSError(errno.ENOSPC, _os.strerror(errno.ENOSPC), dst)
+        if src.split('/')[1] != dst.split('/')[1]:
+            # every top-level directory is a file system of its own (the queue directories share one, the system's
+            # temporary directory is another): rename(2) does not cross them
+            raise OSError(errno.EXDEV, _os.strerror(errno.EXDEV), dst)
         self.files[dst] = self.files.pop(src)
         for fd, p in list(self.fds.items()):
             if p == src:
